@@ -443,6 +443,13 @@ func TestC20(t *testing.T) {
 	maxLen := scale(256*1024, 4*1024*1024)
 	known := rec.IsKnown("read-past-eof-panic")
 
+	rec.Regress(t, func(raw json.RawMessage) *Violation {
+		var c c20Case
+		if json.Unmarshal(raw, &c) != nil {
+			return nil
+		}
+		return env.run(c)
+	})
 	t.Run("grid", func(t *testing.T) {
 		for _, tr := range []string{"ws", "http"} {
 			for _, order := range []string{"natural", "request_first", "upload_first"} {
